@@ -8,6 +8,10 @@ from .repo import AnalysisError, FuncInfo
 from .terms import (NTuple, Partial, ModelFn, App, Atom, Attr, BoundMethod, BuiltinRef, ClassRef, Closure, Comp, Elem, EnumVal, FStr, FuncRef,
                     ModRef, Mut, Obj, Op, Opaque, Star, Sub, Sym, Term, contains_term, vkey)
 
+try:
+    from .evalx import AnyKeyDict as AnyKeyDict_
+except Exception:  # circular import at start-up
+    AnyKeyDict_ = ()
 MUTATORS = {"append", "extend", "insert", "pop", "remove", "clear", "add", "discard", "update", "setdefault",
             "popitem", "sort", "reverse", "difference_update", "intersection_update", "symmetric_difference_update",
             "appendleft", "popleft", "__setitem__", "__delitem__"}
@@ -314,6 +318,26 @@ class CallMixin:
             import copy as _c
 
             return _c.copy(args[0])
+        if qual == "itertools.cycle" and len(args) == 1:
+            items = self.concrete_iter(args[0])
+            if items:
+                from .stmts import _CycleIter
+
+                return _CycleIter(list(items))
+        if "itertools.chain.from_iterable" in (qual, name) and len(args) == 1:
+            outer = self.concrete_iter(args[0])
+            if outer is not None:
+                flat, okk = [], True
+                for part in outer:
+                    items = self.concrete_iter(part)
+                    if items is None:
+                        okk = False
+                        break
+                    flat.extend(items)
+                if okk:
+                    from .stmts import _ConcreteIter
+
+                    return _ConcreteIter(flat)
         if qual == "itertools.chain":
             out = []
             for a in args:
@@ -489,6 +513,14 @@ class CallMixin:
             return ast.literal_eval(d)
         except Exception:
             pass
+        if isinstance(d, ast.Name) and fi.cls is not None:
+            # defaults are evaluated in the class body's scope at definition time: a class-level constant is visible there
+            for q in self.repo.class_mro(fi.cls.qual):
+                ci = self.repo.classes.get(q)
+                if ci is not None and d.id in ci.class_attrs:
+                    v = self.const_value(ci.module, ci.class_attrs[d.id], cls=ci)
+                    if v is not NotImplemented:
+                        return v
         tmp = Frame(fi, closure, 0)
         tmp.declared = set()
         return self.eval(d, tmp)
@@ -646,7 +678,13 @@ class CallMixin:
                 row = []
                 stop = False
                 for i, it in enumerate(its):
-                    if it.pos < len(it.items):
+                    if getattr(it, "cyclic", False) and it.items:
+                        if all(getattr(o, "cyclic", False) for o in its):
+                            stop = True  # only endless partners: not a finite zip
+                            break
+                        row.append(it.items[it.pos % len(it.items)])
+                        it.pos += 1
+                    elif it.pos < len(it.items):
                         row.append(it.items[it.pos])
                         it.pos += 1
                     else:
@@ -710,6 +748,8 @@ class CallMixin:
         if name == "type" and len(args) == 1:
             if isinstance(a0, Obj):
                 return ClassRef(a0.cls)
+            if type(a0) in (str, int, float, bool, bytes, list, dict, tuple, set, frozenset) or a0 is None:
+                return BuiltinRef(type(a0).__name__)
             return App("type", (a0,), fname="type")
         if name == "print":
             return None
@@ -746,6 +786,8 @@ class CallMixin:
             return x
         if isinstance(x, (list, tuple)):
             return _ConcreteIter(x)
+        if isinstance(x, dict) and not isinstance(x, AnyKeyDict_):
+            return _ConcreteIter(list(x.keys()))
         return None
 
     def isinstance_(self, v, spec, node, fr) -> bool:
